@@ -29,6 +29,7 @@ var incidentKinds = []string{
 	"expiry-while-skipping-unread-big",                // the same inside a big message the application did not read
 	"violation-inside-big-publish",                    // a PUBLISH beyond the read buffer that is itself a protocol violation
 	"publish-during-resend",                           // persisted publishes of both levels while the resend of a reconnect is under way
+	"client-identifier-load-fails",                    // the Persistence fails the Load of the client identifier at 1-2 connect attempts
 	"writer-fails-while-reader-owes-duplicate-pubrec", // the read routine meets a retransmitted exactly-once PUBLISH with the connection set pending by a failed writer
 }
 
@@ -43,7 +44,7 @@ func runIncidents(c *run.Ctx, kinds []string) {
 	ep.Cfg.AtLeastOnceMax, ep.Cfg.ExactlyOnceMax = 32, 32
 	// scripted decisions, set per incident
 	var failWriter, gateWriter, failAck, skipBig, gateResend bool
-	var failDials, failHandshake, failResend, refuse int
+	var failDials, failHandshake, failResend, refuse, failLoadID int
 	parkAt := ""
 	w.Mu.Lock()
 	w.PointPlan = func(w *sim.World, point string, n int) sim.PointAction {
@@ -81,6 +82,13 @@ func runIncidents(c *run.Ctx, kinds []string) {
 			return sim.WriteDecision{Accept: w.Rng.Intn(len(p)), Then: "error"}
 		}
 		return sim.WriteDecision{Accept: -1}
+	}
+	w.Store.Fail = func(op string, key uint, n int) bool {
+		if op == "load" && key == 0 && failLoadID > 0 {
+			failLoadID--
+			return true
+		}
+		return false
 	}
 	w.DialPlan = func(w *sim.World, n int) sim.DialDecision {
 		if failDials > 0 {
@@ -395,6 +403,9 @@ func runIncidents(c *run.Ctx, kinds []string) {
 		case "dial-fails-n-times":
 			set(func() { failDials = 1 + c.Rng.Intn(5) })
 			conn.EndInbound(-1, io.EOF)
+		case "client-identifier-load-fails":
+			set(func() { failLoadID = 1 + c.Rng.Intn(2) })
+			conn.EndInbound(-1, io.EOF)
 		case "handshake-fails":
 			set(func() { failHandshake = 1 + c.Rng.Intn(3) })
 			conn.EndInbound(-1, io.EOF)
@@ -494,6 +505,18 @@ func runIncidents(c *run.Ctx, kinds []string) {
 	}
 	if d.BackoffStuck {
 		c.Violate("readbackoff-never-closes", "a ReadBackoff channel did not close", detail())
+	}
+	// the client is on its latest connection; every earlier one got closed
+	w.Mu.Lock()
+	var open []int
+	for _, cn := range w.Conns[:max(len(w.Conns)-1, 0)] {
+		if !cn.Closed() {
+			open = append(open, cn.Idx)
+		}
+	}
+	w.Mu.Unlock()
+	if len(open) != 0 {
+		c.Violate("failed-connection-left-open", fmt.Sprintf("connections %v were left for later ones and never closed", open), detail())
 	}
 	if !d.CloseAndWait() {
 		c.Spoiled()
